@@ -30,6 +30,8 @@ func main() {
 	pkgPat := flag.String("pkg", ".", "package pattern containing the harness")
 	flag.Var(&overlays, "overlay", "virtual=real overlay mapping (repeatable)")
 	flag.Var(&harnesses, "harness", "harness function name (repeatable)")
+	var knownLabels multi
+	flag.Var(&knownLabels, "known-label", "assertion label of a recorded finding: reported but does not stop the exploration (repeatable)")
 	var fixes multi
 	flag.Var(&fixes, "fix", "name=value: fix the outcome of vChoice(name) (repeatable)")
 	tags := flag.String("tags", "verif", "build tags")
@@ -110,6 +112,7 @@ func main() {
 			Verbose:     *verbose,
 			C06:         *c06,
 			Fixed:       fixed,
+			KnownLabels: knownLabels,
 			FrontierMult: *frontier,
 		}
 		if *sitePkgs != "" {
